@@ -216,7 +216,12 @@ pub fn wcase(id: String, scn: Scn) -> WCase {
 /// Runs one world case for `prop` with the given oracles; `post` adds property-specific offline
 /// checks and decides non-triviality.
 pub fn run_world_case(c: &WCase, o: Oracles, prop: &'static str, accept: &[&str], post: &dyn Fn(&Core, &mut Outcome)) -> Outcome {
-    let w = run_scn(&c.scn, o);
+    run_world_case_hook(c, o, prop, accept, &mut |_, _, _| {}, post)
+}
+
+/// Like `run_world_case`, with a hook that runs before every tick (online measurements of the history).
+pub fn run_world_case_hook(c: &WCase, o: Oracles, prop: &'static str, accept: &[&str], hook: &mut dyn FnMut(&mut Core, usize, u64), post: &dyn Fn(&Core, &mut Outcome)) -> Outcome {
+    let w = run_scn_hook(&c.scn, o, false, hook);
     let mut out = Outcome::new(world_desc(&w));
     absorb_obs(&mut out, &w);
     take_viols(&mut out, &w, prop, accept);
